@@ -1,7 +1,9 @@
 """C03 — signature integers and public keys are the ones the standard defines.
 
 Tie: translator (Generated/EcdsaInt.lean: every integer expression of Private_key.sign, the truncation shift, the
-range tests) + correspondence of the hand-written model (Model/Ecdsa.lean over the textbook affine point layer).
+range tests) + correspondence of the hand-written model: `ecdsa_*` lines run Model/Ecdsa.lean over the value-level model of
+the real point classes (Model/EcdsaCurve.lean over Model/Curve.lean); the `ecdsaref_*` stream runs the same ECDSA model
+over the textbook affine instance (spec-level reference) on toy curves.
 Search oracle: the property read literally with an independent affine implementation and a bit-STRING reading of
 "leftmost min(8 len, bitlen n) bits"."""
 import hashlib
@@ -9,6 +11,11 @@ from lib import common
 from lib.common import hx, errname
 from props import _ecdsa_common as E
 from props._ecdsa_common import ParCorr, bitlen, leftmost_bits, mulcost
+
+# modules re-checked by `lake env leanchecker` in the thorough tier
+LEANCHECK = ["Props.C03", "Proofs.EcdsaNt", "Proofs.EcdsaGroup", "Proofs.EcdsaSign", "Proofs.EcdsaBits",
+             "Proofs.EcdsaTruncate", "Proofs.EcdsaKeys", "Proofs.EcdsaToy", "Proofs.EcdsaInstOrd", "Proofs.EcdsaInstCurve",
+             "Proofs.EcdsaInstToy", "Proofs.EcdsaInstCard", "Proofs.EcdsaInstNamed", "Proofs.EcdsaInstLegacy"]
 
 RULE = ("correspondence: ecdsa_truncate over 17 curve orders + small/odd-sized/non-byte-aligned orders x digest classes "
         "{empty, 1 byte, all-00, all-FF, n, n-1, n+1 byte, long, SHA-1/256/512, random} x allow_truncate; ecdsa_sign / "
@@ -190,6 +197,7 @@ def correspond(ctx):
                 if cls in ("d=0", "d=n", "d=n-1") or rng.random() < (0.2 if big else 1.0):
                     add_pubkey(c, tok, cv, d, "pubkey " + cls, mc if 1 <= d < n else lc)
     c.run()
+    c.mirror_ref().run()
 
 
 # ------------------------------------------------------------------------------------------------
@@ -314,7 +322,7 @@ def search_truncate(ctx):
         for L in lens:
             pats = [bytes(rng.randrange(256) for _ in range(L)), b"\xff" * L, b"\x00" * (L - 1) + b"\x01", b"\x80" + b"\x00" * (L - 1)]
             if not q:
-                pats += [bytes(rng.randrange(256) for _ in range(L)) for _ in range(6)]
+                pats += [bytes(rng.randrange(256) for _ in range(L)) for _ in range(40)]
             for dg in pats:
                 for allow in (True, False):
                     if check(ctx, {"kind": "truncate", "order": n, "digest": dg.hex(), "allow_truncate": allow},
